@@ -22,9 +22,24 @@ import (
 	"verif/internal/netsim"
 )
 
-// Scenario returns the scenario function for l2.Main / l2.RunScenarios.
+// Scenario returns the scenario function for l2.Main / l2.RunScenarios: the
+// mutation-script scenarios only.
 func Scenario(quick bool) l2.ScenarioFunc {
 	return func(seed int64, k int, res *l2.Result) { Run(seed, k, quick, res) }
+}
+
+// Scenarios returns the scenario function of the whole case list: scenarios
+// 0..nBase-1 are the mutation-script scenarios (some with a re-org phase woven
+// in), scenarios nBase.. are the re-org family (the first NumFixedReorg of
+// them do not depend on the seed).
+func Scenarios(quick bool, nBase int) l2.ScenarioFunc {
+	return func(seed int64, k int, res *l2.Result) {
+		if k < nBase {
+			Run(seed, k, quick, res)
+			return
+		}
+		RunPlan(MakeReorgPlan(seed, k-nBase, quick), fmt.Sprintf("c05-reorg-%d", k-nBase), res)
+	}
 }
 
 type callResult struct {
@@ -42,7 +57,9 @@ type state struct {
 	trunk   []*chaingen.Node
 	opts    l2.ClientOpts
 	cached  map[chainhash.Hash]bool // cache contents at the last check
-	inDB    map[int32]bool          // heights found persisted at the last database check
+	inDB    map[chainhash.Hash]bool // blocks found persisted at the last database check
+	last    *Call                   // the most recent call issued (absolute height)
+	outs    []string                // outcomes of the calls of the last round
 	restart bool                    // a restart happened
 	vio     map[string]int
 	calls   []string
@@ -143,8 +160,12 @@ func callOpts(c Call) []neutrino.QueryOption {
 
 // Run executes scenario k of the (seed, tier) case list.
 func Run(seed int64, k int, quick bool, res *l2.Result) {
-	plan := MakePlan(seed, k, quick)
-	res.Name = fmt.Sprintf("c05-%d", k)
+	RunPlan(MakePlan(seed, k, quick), fmt.Sprintf("c05-%d", k), res)
+}
+
+// RunPlan executes one planned scenario.
+func RunPlan(plan Plan, name string, res *l2.Result) {
+	res.Name = name
 	res.Fingerprint = plan.Describe()
 	span := time.Duration(plan.ChainLen+400) * 6 * time.Second
 	if span < 2*time.Hour {
@@ -155,11 +176,14 @@ func Run(seed int64, k int, quick bool, res *l2.Result) {
 	ext := w.G.Extend(w.G.Genesis, plan.ChainLen, chaingen.PaceNormal)
 	tip := ext[len(ext)-1]
 	d := NewDirector(plan.Seed, tip)
+	if len(plan.Reorgs) > 0 {
+		d.SetValidCeil(int32(plan.ChainLen - reorgReserve))
+	}
 	for i := 0; i < plan.NPeers; i++ {
 		d.Attach(w.AddPeer(tip))
 	}
 	s := &state{plan: plan, w: w, d: d, res: res, tip: tip, trunk: tip.Path(),
-		cached: map[chainhash.Hash]bool{}, inDB: map[int32]bool{}, vio: map[string]int{}, badSeen: map[chainhash.Hash]bool{}}
+		cached: map[chainhash.Hash]bool{}, inDB: map[chainhash.Hash]bool{}, vio: map[string]int{}, badSeen: map[chainhash.Hash]bool{}}
 	s.opts = l2.ClientOpts{PersistToDisk: plan.Persist}
 	if plan.SmallCache {
 		s.opts.FilterCache = 700 // bytes: a few dozen filters, so batches evict
@@ -242,6 +266,24 @@ func Run(seed int64, k int, quick bool, res *l2.Result) {
 			}
 			startUnsol()
 		}
+		for pi, ph := range plan.Reorgs {
+			if ph.After != i {
+				continue
+			}
+			switch s.reorgPhase(pi, ph) {
+			case phaseBlocked:
+				aborted = true
+			case phaseStopped:
+				haltUnsol()
+				return
+			}
+			if aborted {
+				break
+			}
+		}
+		if aborted {
+			break
+		}
 	}
 	haltUnsol()
 	if aborted {
@@ -271,6 +313,12 @@ func Run(seed int64, k int, quick bool, res *l2.Result) {
 	res.Count("cfilter_msgs_in_event_log", logged)
 	res.Sample = map[string]any{"scenario": res.Name, "shape": plan.Describe(), "chain": plan.ChainLen,
 		"planned_timeout_budget_s": plan.BudgetS, "calls": s.calls}
+	if plan.Family != "" {
+		res.Count("scenarios_of_family_"+plan.Family, 1)
+		if plan.Fixed {
+			res.Count("scenarios_fixed(seed-independent)", 1)
+		}
+	}
 }
 
 // awaitReady waits for the client to be synced to the tip and connected.
@@ -337,6 +385,11 @@ func (s *state) runRound(idx int, rd Round) (ok, baselineFailed bool) {
 		res.Inconcl("committed filter headers unreadable: " + cerr.Error())
 		return false, false
 	}
+	s.outs = s.outs[:0]
+	if len(rd.Calls) > 0 {
+		lc := rd.Calls[len(rd.Calls)-1]
+		s.last = &lc
+	}
 	for i, c := range rd.Calls {
 		r := results[i]
 		res.Count("calls", 1)
@@ -346,7 +399,7 @@ func (s *state) runRound(idx int, rd Round) (ok, baselineFailed bool) {
 		}
 		good := 0
 		if node != nil {
-			good = d.Good(c.Height)
+			good = d.Good(node.Hash)
 		}
 		outcome := ""
 		wit := func() map[string]any {
@@ -365,7 +418,7 @@ func (s *state) runRound(idx int, rd Round) (ok, baselineFailed bool) {
 			src := "net"
 			if reqs == 0 {
 				src = "cache"
-				if node != nil && !s.cached[node.Hash] && (s.inDB[c.Height] || c.Height == 0) {
+				if node != nil && !s.cached[node.Hash] && (s.inDB[node.Hash] || c.Height == 0) {
 					src = "db"
 				}
 			} else if node != nil && s.cached[node.Hash] {
@@ -406,6 +459,7 @@ func (s *state) runRound(idx int, rd Round) (ok, baselineFailed bool) {
 		fp := fmt.Sprintf("mut=%s pos=%s batch=%s boundary=%s persist=%v conc=%v outcome=%s",
 			mut, posc, capClass(c), c.Boundary, s.plan.Persist, rd.Concurrent, outcome)
 		res.Mark(fp)
+		s.outs = append(s.outs, outcome)
 		s.calls = append(s.calls, fmt.Sprintf("r%d h=%d %s retries=%d [%s] -> %s (%.1fs)", idx, c.Height, capClass(c), c.Retries, mut, outcome, r.dur.Seconds()))
 		if outcome == "ok-net" && mut != KHonest {
 			res.Nontrivial = true
@@ -537,6 +591,17 @@ func (s *state) checkCache(when string, rd Round) {
 			s.violate(evid.Sig("c05/cached-under-wrong-type", mut), "the filter cache holds an entry of an unknown filter type", wit)
 		case v == nil || v.Filter == nil:
 			s.violate(evid.Sig("c05/cached-nil", mut), fmt.Sprintf("the filter cache holds a nil filter for height %d", node.Height), wit)
+		case !d.OnChain(node):
+			// A block of a branch that a re-org replaced: there is no committed
+			// header for it any more. The entry was verified when its block was
+			// on the committed chain (whose headers were the true ones), so all
+			// that can still be said is that it is that block's true filter.
+			s.res.Count("cache_entries_of_replaced_blocks", 1)
+			if nb, err := v.Filter.NBytes(); err != nil || !bytes.Equal(nb, node.FilterBytes) {
+				wit["height"] = node.Height
+				s.violate(evid.Sig("c05/cached-unverified", "replaced-block", mut),
+					fmt.Sprintf("the filter cache holds, for a replaced block of height %d, a filter that is not that block's filter", node.Height), wit)
+			}
 		default:
 			if why := verify(v.Filter, node, committed); why != "" {
 				wit["height"] = node.Height
@@ -611,7 +676,7 @@ func (s *state) stopAndCheckDB(when string) bool {
 		return false
 	}
 	defer w.CloseDB()
-	inDB := map[int32]bool{}
+	inDB := map[chainhash.Hash]bool{}
 	n := int64(0)
 	for _, node := range s.trunk {
 		hash := node.Hash
@@ -629,7 +694,7 @@ func (s *state) stopAndCheckDB(when string) bool {
 				fmt.Sprintf("FilterDB holds an empty (nil) filter for height %d", node.Height), wit)
 		default:
 			n++
-			inDB[node.Height] = true
+			inDB[node.Hash] = true
 			if why := verify(f, node, committed); why != "" {
 				s.violate(evid.Sig("c05/persisted-unverified"),
 					fmt.Sprintf("FilterDB holds, for block height %d, a filter that does not verify: %s", node.Height, why), wit)
@@ -642,11 +707,29 @@ func (s *state) stopAndCheckDB(when string) bool {
 	if kerr == nil {
 		foreign := 0
 		for _, k := range keys {
-			if d.Node(k) == nil {
+			node := d.Node(k)
+			if node == nil {
 				foreign++
 				s.violate(evid.Sig("c05/persisted-under-foreign-key"),
 					"FilterDB holds an entry keyed by a hash that is no block of the chain",
 					map[string]any{"when": when, "key": k.String()})
+				continue
+			}
+			if !d.OnChain(node) {
+				// Persisted while its block was on the committed chain, replaced
+				// by a re-org since: it can only be that block's true filter.
+				k := k
+				res.Count("db_entries_of_replaced_blocks", 1)
+				f, err := w.Svc.FilterDB.FetchFilter(&k, filterdb.RegularFilter)
+				var nb []byte
+				if err == nil && f != nil {
+					nb, err = f.NBytes()
+				}
+				if err != nil || !bytes.Equal(nb, node.FilterBytes) {
+					s.violate(evid.Sig("c05/persisted-unverified", "replaced-block"),
+						fmt.Sprintf("FilterDB holds, for a replaced block of height %d, something that is not that block's filter", node.Height),
+						map[string]any{"when": when, "height": node.Height, "error": fmt.Sprint(err)})
+				}
 			}
 		}
 		res.Count("db_keys_enumerated", int64(len(keys)))
